@@ -96,7 +96,19 @@ def seq_resume(F):
         return Result("inconclusive", "recover_with_hnsw_params_and_mode / fields not found")
     mx = (fn.debug.get("max_wal_seq") or "").strip()
     if not re.match(r"^_\d+$", mx):
-        return Result("inconclusive", "max_wal_seq not found in the debug info of recover")
+        # renamed: the running maximum is the one user variable that is assigned an entry's seq_no inside the replay loop
+        users = set(v.strip() for v in fn.debug.values())
+        cands = set()
+        for b in fn.blocks.values():
+            if b.cleanup:
+                continue
+            for s_ in b.stmts:
+                m = re.match(r"^(_\d+) = move (_\d+);$", s_)
+                if m and m.group(1) in users and re.search(r"as Iterator>::next\} as Some\)\.0: persistence::WalEntry\)\}\.%d: u64\)" % ix["seq"], _o(fn, m.group(2))):
+                    cands.add(m.group(1))
+        if len(cands) != 1:
+            return Result("inconclusive", "the running maximum of the sequence numbers (max_wal_seq) was not identified in recover (%d candidates)" % len(cands))
+        mx = cands.pop()
     out = []
     # (a) per entry: max_wal_seq is raised to entry.seq_no iff entry.seq_no > max_wal_seq
     E_ = r"\(\(\{call <IntoIter<WalEntry> as Iterator>::next\} as Some\)\.0: persistence::WalEntry\)\}\.%d: u64\)"
